@@ -639,14 +639,24 @@ int32 dtlsHsHashFragMsg(ssl_t *ssl)
 
 /******************************************************************************/
 /*
- *      Replay detection, per IPSec
- *      http://www.faqs.org/rfcs/rfc2401.html Appendix C
+ *      Replay detection: sliding window of RFC 6347 4.1.2.6 (RFC 2401
+ *      Appendix C) over the record sequence numbers of the current read epoch.
+ *      Bit i of dtlsBitmap is set iff record (lastRsn - i) has been accepted.
+ *      The window is emptied with dtlsResetReplayWindow() whenever the
+ *      expected read epoch changes, so the first record of an epoch
+ *      (sequence number 0) is accepted exactly once, like any other.
  *      Returns 0 if packet disallowed, 1 if packet permitted
  */
 enum
 {
     ReplayWindowSize = 32
 };
+void dtlsResetReplayWindow(ssl_t *ssl)
+{
+    zeroSixByte(ssl->lastRsn);
+    ssl->dtlsBitmap = 0;
+}
+
 int32 dtlsChkReplayWindow(ssl_t *ssl, unsigned char *seq64)
 {
     uint32_t diff, seq, lastSeq;
@@ -661,28 +671,6 @@ int32 dtlsChkReplayWindow(ssl_t *ssl, unsigned char *seq64)
     lastSeq = ((uint32_t) ls64[2] << 24) + ((uint32_t) ls64[3] << 16) +
               ((uint32_t) ls64[4] << 8) + (uint32_t) ls64[5];
 
-    if (seq == 0)
-    {
-        /* Need to differentiate between initial, duplicate, and epoch shift */
-        if (lastSeq == 0 && ssl->rec.epoch[0] == 0 && ssl->rec.epoch[1] == 0)
-        {
-            ssl->dtlsBitmap = 0;
-            return 1; /* initial one */
-        }
-        if (dtlsCompareEpoch(ssl->rec.epoch, ssl->expectedEpoch) >= 0 &&
-            lastSeq > 0)
-        {
-            ssl->dtlsBitmap = 0;
-            return 1; /* epoch shift */
-        }
-        if (lastSeq == 0xFFFFFFF)
-        {
-            ssl->dtlsBitmap = 0;
-            return 1; /* wrapped */
-        }
-        return 0;     /* duplicate */
-    }
-
     if (seq > lastSeq)                 /* new larger sequence number */
     {
         diff = seq - lastSeq;
@@ -693,8 +681,9 @@ int32 dtlsChkReplayWindow(ssl_t *ssl, unsigned char *seq64)
         }
         else
         {
-            ssl->lastRsn[0] = 1;       /* This packet has a "way larger" */
+            ssl->dtlsBitmap = 1;       /* Everything seen so far is too old */
         }
+        ssl->dtlsBitmap &= 0xFFFFFFFFUL; /* window is 32 wide on all ABIs */
         Memcpy(ssl->lastRsn, seq64, 6);
         return 1;                   /* larger is good */
     }
@@ -703,7 +692,7 @@ int32 dtlsChkReplayWindow(ssl_t *ssl, unsigned char *seq64)
     {
         return 0;                   /* too old or wrapped */
     }
-    if (ssl->dtlsBitmap & ((int32) 1 << diff))
+    if (ssl->dtlsBitmap & ((unsigned long) 1 << diff))
     {
         return 0;                                   /* already seen */
     }
